@@ -96,15 +96,21 @@ type Obj struct {
 	Fields map[string]Val
 }
 
-func Bool(b bool) Val     { return Const{constant.MakeBool(b)} }
-func Int(i int64) Val     { return Const{constant.MakeInt64(i)} }
-func Str(s string) Val    { return Const{constant.MakeString(s)} }
-func S(name string) Val   { return Sym{Name: name} }
+func Bool(b bool) Val   { return Const{constant.MakeBool(b)} }
+func Int(i int64) Val   { return Const{constant.MakeInt64(i)} }
+func Str(s string) Val  { return Const{constant.MakeString(s)} }
+func S(name string) Val { return Sym{Name: name} }
 
 // NN is an opaque term known to be non-nil.
 func NN(name string) Val { return Sym{Name: name, NotNil: true} }
-func IsTrue(v Val) bool   { c, ok := v.(Const); return ok && c.V.Kind() == constant.Bool && constant.BoolVal(c.V) }
-func IsFalse(v Val) bool  { c, ok := v.(Const); return ok && c.V.Kind() == constant.Bool && !constant.BoolVal(c.V) }
+func IsTrue(v Val) bool {
+	c, ok := v.(Const)
+	return ok && c.V.Kind() == constant.Bool && constant.BoolVal(c.V)
+}
+func IsFalse(v Val) bool {
+	c, ok := v.(Const)
+	return ok && c.V.Kind() == constant.Bool && !constant.BoolVal(c.V)
+}
 func IsConst(v Val) bool  { _, ok := v.(Const); return ok }
 func IsNilVal(v Val) bool { _, ok := v.(Nil); return ok }
 
